@@ -69,9 +69,45 @@ def executed_statements(tr, qp):
     return out
 
 
+def run_sql_file_case(case, seed):
+    """an evolution shipped as per-database SQL files, previewed and executed on one database"""
+    import random
+    from django.db import connections
+    from django_evolution.db import EvolutionOperationsMulti
+    from vlib import dbrig
+    alias = case['alias']
+    res = {'hint': '', 'hint_status': None, 'hpreview': [], 'hexecuted': [], 'hpreview_status': None,
+           'hexecute_status': None}
+    evorig.fresh_databases()
+    evorig.clear_evolutions()
+    evorig.install_models(case['spec0'])
+    for a in ('default', 'other'):
+        r = evorig.run_evolver(alias=a)
+        if r[0] != 'ok':
+            raise RuntimeError('baseline failed on %s: %r' % (a, r[1]))
+    evorig.set_evolutions('vapp', [{'label': 'e1', 'sql_files': case['sql_files']}])
+    before = evorig.snapshot(alias)
+    r = evorig.run_command(alias=alias, compile_sql=True)
+    res['preview_status'] = r[0]
+    res['preview_error'] = None if r[0] == 'ok' else '%s: %s' % (type(r[1]).__name__, str(r[1])[:200])
+    res['preview'] = parse_preview(r[2])
+    res['preview_writes'] = [s for s in r[3].write_statements()]
+    res['preview_touched_db'] = evorig.snapshot(alias) != before
+    qp = EvolutionOperationsMulti(alias).get_evolver().quote_sql_param
+    r = evorig.run_command(alias=alias, execute=True, interactive=False)
+    res['execute_status'] = r[0]
+    res['execute_error'] = None if r[0] == 'ok' else '%s: %s' % (type(r[1]).__name__, str(r[1])[:200])
+    res['executed'] = executed_statements(r[3], qp)
+    for a in ('default', 'other'):
+        connections[a].close()
+    return res
+
+
 def run_case(case, seed):
     from django.db import connections
     from django_evolution.db import EvolutionOperationsMulti
+    if case.get('sql_files') is not None:
+        return run_sql_file_case(case, seed)
     res = {}
     evocases.prepare_v0(case, seed, rows=case.get('rows', True))
     evocases.save_db('c14v0')
